@@ -147,3 +147,11 @@ Definition check_splice (o : sobs) : list N :=
   ++ e 23 (forallb (fun x => let '(_, _, eu, _) := x in eu) (si_later o))
   ++ e 24 (forallb (fun x => let '(_, _, _, ed) := x in ed) (si_later o))
   ++ e 31 (forallb (fun x => let '((su, sd), (mu, md)) := x in list_eqb su mu && list_eqb sd md) (combine (so_later o) mouts)).
+
+(* ------------------------------------------------------------------ a side ends with (last bytes, reset) in one Read *)
+(* the direction FROM the resetting side must have delivered everything the reads returned, the other one a prefix *)
+Definition check_reset (o : list N * list N * list N * list N * bool) : list N :=
+  let e c (b : bool) := if b then [] else [c] in
+  let '(su, sd, gu, gd, client_resets) := o in
+  e 21 (if client_resets then list_eqb gu su else is_prefix gu su)
+  ++ e 22 (if client_resets then is_prefix gd sd else list_eqb gd sd).
